@@ -26,6 +26,9 @@ Y6  `hash(x)` / `id(x)` used as the key of a container kept in `self` or at modu
 Y7  a memo (`if k not in self.m: self.m[k] = E`) whose key leaves out an argument E depends on.
 Y8  a function declared `-> Optional[T]` returning `a and b` (False is not None).
 Y9  labels handed out / rules recorded while iterating over a set (hash order).
+Y11 the result of a method that only builds and returns a new object is thrown away.
+Y10 a copy / pickle hook (`__getstate__`, `__setstate__`, `__reduce__`, `__copy__`, `__deepcopy__`)
+    that does anything but carry the whole instance dictionary over.
 """
 from __future__ import annotations
 
@@ -299,6 +302,56 @@ def run(ctx, modules: Tuple[str, ...]) -> None:
                     ctx.violation("Y6", n, f"{fi.qualname}: `{norm(kv)}` is used as a key of `{norm(cv)[:40]}`, which outlives the call: "
                                   + ("two different objects can have the same hash" if kv.func.id == "hash" else "an id is reused as soon as the object it named is gone")
                                   + ", so one object is taken for another")
+    # -------------------------------------------------------------------- Y11 (results of builders thrown away)
+    builders: Dict[str, FuncInfo] = {}
+    for cls_ in P.classes.values():
+        for bm in cls_.methods.values():
+            rets_ = [r for r in C.returns_of(bm.node) if r.value is not None]
+            if not rets_ or bm.is_property() or bm.name.startswith("__"):
+                continue
+            makes = all(isinstance(r.value, ast.Call) and norm(r.value.func) in ("self.__class__", "type(self)", cls_.name) for r in rets_)
+            mutates = any(isinstance(x, ast.Attribute) and isinstance(x.ctx, ast.Store) and isinstance(x.value, ast.Name) and x.value.id == "self" for x in walk_local(bm.node))
+            if makes and not mutates:
+                builders[bm.name] = bm
+    for fi in funcs:
+        for st in walk_local(fi.node):
+            if isinstance(st, ast.Expr) and isinstance(st.value, ast.Call) and isinstance(st.value.func, ast.Attribute) and st.value.func.attr in builders:
+                b_ = builders[st.value.func.attr]
+                ctx.violation("Y11", st, f"{fi.qualname}: `{norm(st.value)[:60]}` is called for its effect, but {b_.qualname} changes nothing -- it returns a new object, which is "
+                              "thrown away here (the object at hand stays as it was)")
+    # -------------------------------------------------------------------- Y10 (copy / pickle hooks)
+    HOOKS = ("__getstate__", "__setstate__", "__reduce__", "__reduce_ex__", "__copy__", "__deepcopy__")
+    for cls in P.classes.values():
+        if cls.module.short not in modules:
+            continue
+        for hname in HOOKS:
+            h = cls.methods.get(hname)
+            if h is None:
+                continue
+            g = h.node
+            body = [s_ for s_ in g.body if not (isinstance(s_, ast.Expr) and isinstance(s_.value, ast.Constant))]
+            whole = ("self.__dict__", "self.__dict__.copy()", "dict(self.__dict__)", "vars(self)", "vars(self).copy()", "dict(vars(self))")
+            faithful = False
+            if hname == "__getstate__":
+                faithful = len(body) == 1 and isinstance(body[0], ast.Return) and body[0].value is not None and norm(body[0].value) in whole
+            elif hname == "__setstate__":
+                st_p = [p_ for p_ in h.params() if p_ != "self"]
+                faithful = len(body) == 1 and st_p and norm(body[0]) in (f"self.__dict__.update({st_p[0]})", f"self.__dict__ = {st_p[0]}", f"vars(self).update({st_p[0]})")
+            elif hname in ("__copy__", "__deepcopy__"):
+                stores = [x for x in walk_local(g) if isinstance(x, ast.Attribute) and isinstance(x.ctx, ast.Store) and x.attr != "__dict__"]
+                builds = [c for c in walk_local(g) if isinstance(c, ast.Call) and isinstance(c.func, ast.Name) and c.func.id in P.classes]
+                builds += [c for c in walk_local(g) if isinstance(c, ast.Call) and norm(c.func) in ("self.__class__", "type(self)", "cls")]
+                faithful = not stores and not builds
+            if faithful:
+                ctx.ok("Y", f"{cls.name}.{hname} carries the whole instance dictionary over")
+                continue
+            what = {"__getstate__": "saves something other than the whole instance dictionary", "__setstate__": "rebuilds the object instead of restoring the saved dictionary",
+                    "__reduce__": "replaces the default pickling", "__reduce_ex__": "replaces the default pickling",
+                    "__copy__": "resets attributes / rebuilds the object from some of its parts", "__deepcopy__": "resets attributes / rebuilds the object from some of its parts"}[hname]
+            ctx.violation("Y10", g, f"{cls.name}.{hname} {what}: a pickled, copied or deep-copied {cls.name} (a searcher saved and resumed, a rule copied into the specification that "
+                          "expand_verified builds) is then not the object it was made from -- whatever is dropped, reset or rebuilt here (work lists that are not empty at that moment, "
+                          "`None` meaning 'not asked yet', the form of a derived rule, cached levels and their types) differs afterwards",
+                          construct=f"{cls.name}.{hname}")
     # -------------------------------------------------------------------- Y5
     n_cls = 0
     for cls in P.classes.values():
